@@ -210,6 +210,13 @@ def op_table():
     add("lo_root_decomposition", _pd, lambda op, A, c: lo.root_decomposition(op))
     add("lo_add_jitter", _sq, lambda op, A, c: dn(lo.add_jitter(op, 0.5)))
     add("lo_diagonalization", _pd, lambda op, A, c: lo.diagonalization(op))
+    # queries on operators derived from this one (they may reach back into this operator's caches and earlier results)
+    for dname, dfn in (("add_jitter", lambda op: op.add_jitter(0.5)), ("mul2", lambda op: op * 2.0), ("mT", lambda op: op.mT)):
+        add(f"{dname}>svd", _sq, lambda op, A, c, dfn=dfn: dfn(op).svd())
+        add(f"{dname}>eigh", _pd, lambda op, A, c, dfn=dfn: dfn(op).eigh())
+        add(f"{dname}>cholesky", _pd, lambda op, A, c, dfn=dfn: dfn(op).cholesky())
+        add(f"{dname}>root_inv", _pd, lambda op, A, c, dfn=dfn: dfn(op).root_inv_decomposition())
+        add(f"{dname}>solve", _pd, lambda op, A, c, dfn=dfn: dfn(op).solve(A.t(c["c"], 2)))
     return T
 
 
